@@ -1,6 +1,6 @@
 (* PV.C02.Examples — non-vacuity: concrete non-trivial inputs meeting the hypotheses of the theorems. *)
 From Coq Require Import QArith List Bool PArith Arith.
-From PV Require Import Base.PyData Base.Expr Base.Interp Base.Stmts C02.Model C02.CondPrint C02.Refuted C02.Remap C02.PrintSeq C02.IndexDiff.
+From PV Require Import Base.PyData Base.Expr Base.Interp Base.Stmts C02.Model C02.CondPrint C02.Refuted C02.Remap C02.PrintSeq C02.IndexDiff C02.KeepText C02.Read.
 Import ListNotations.
 
 (* diff on lists that differ in the middle, with a common head and tail: all three operations occur *)
@@ -81,3 +81,30 @@ Example index_diff_example :
   Some [(Del, [1; 2], 0, 1); (Ins, [1], 1, 1); (Ins, [7], 1, 1); (Keep, [3], 1, 2)]%nat /\
   index_wf [(0, 1, 0, 2); (1, 2, 2, 3)]%nat = true.
 Proof. split; vm_compute; reflexivity. Qed.
+
+(* a record of five nodes: comment 10, statement nodes 11 12 13, trailing blank 14; statements 1 2 3 in groups of one;
+   the middle statement is replaced: its node 12 goes, the printed node 77 comes, everything else stays in place *)
+Example keeps_text_example :
+  match index_statements_diff 1 [(1, 2, 0, 1); (2, 3, 1, 2); (3, 4, 2, 3)]%nat (diff Nat.eqb [1; 2; 3] [1; 7; 3])%nat with
+  | Some es => new_children (fun s => [70 + s]) [10; 11; 12; 13; 14] es = [10; 11; 77; 13; 14] /\
+               kept_statements es = [1; 3] /\ singleton_index [(1, 2, 0, 1); (2, 3, 1, 2); (3, 4, 2, 3)] = true
+  | None => False
+  end%nat.
+Proof. vm_compute. repeat split. Qed.
+
+(* the reader inverts the reference emitter on a program with all statement forms, nested arithmetic, a power,
+   a function call, a unary minus and all three logical connectives (an instance; the general theorem is not proved) *)
+Definition read_prog : list nmstmt :=
+  [NS (SAssign sX (Add (Mul (Sym sA) (Neg (Sym sB))) (Fn2 5%positive (Sym sA) (Num 2))));
+   NS (SIf (CAnd (CRel OGt (Sym sA) (Num 0)) (CNot (CRel OLe (Sym sB) (Sym sA)))) sX (Fn1 1%positive (Div (Sym sA) (Sym sC))));
+   NBlock [(CRel OEq (Sym sA) (Num 1), [SAssign sX (Sym sA); SAssign sC (Sym sB)]);
+           (COr (CRel OLt (Sym sA) (Sym sB)) (CRel OGt (Sym sA) (Sym sB)), [SAssign sX (Sym sB)])]
+          (Some [SAssign sX (Num 0)])].
+Example read_emit_example : wf_prog read_prog = true /\ read (emit read_prog) = Some read_prog.
+Proof. split; vm_compute; reflexivity. Qed.
+
+(* Fortran precedence: X = -A**2 + B/A*B - 2 *)
+Example read_precedence_example :
+  read [KSym sX; KEq; KMinus; KSym sA; KPow; KNum 2; KPlus; KSym sB; KDiv; KSym sA; KTimes; KSym sB; KMinus; KNum 2; KNl] =
+  Some [NS (SAssign sX (Add (Add (Neg (Fn2 5%positive (Sym sA) (Num 2))) (Mul (Div (Sym sB) (Sym sA)) (Sym sB))) (Neg (Num 2))))].
+Proof. vm_compute. reflexivity. Qed.
